@@ -597,6 +597,7 @@ def run(ck):
     from . import c06
     c06.rule_decoder_state(ck, R, rule='C07.f')
     c06.rule_decoder_owners(ck, R, rule='C07.f')
+    c06.rule_tcp_desync(ck, R, rule='C07.f')
     from .common import reevaluate
     reevaluate(ck, 'C07.g', 'c09', lambda r, k: r == 'C09.a',
                'an extended frame that no longer fits the receive block is recorded as an overflow by the receive sink, never parsed truncated')
